@@ -44,6 +44,22 @@ def classify(c, r, version=''):
         tree = None
     nodes = list(ast.walk(tree)) if tree is not None else []
     if kind == 'raised' and exc.get('type') == 'ValueError' and 'Unable to create representation for f-string' in detail:
+        def needs_escape(text, also=''):
+            return any(ord(ch) < 0x20 or ch in '\\\x7f' + also or ord(ch) > 0x7e for ch in text)
+        for n in nodes:
+            if isinstance(n, ast.FormattedValue) and n.format_spec is not None:
+                # literal text of a format spec that cannot be written as it stands (backslash, control or non-ASCII characters, braces)
+                for k in (n.format_spec.values if isinstance(n.format_spec, ast.JoinedStr) else [n.format_spec]):
+                    if isinstance(k, ast.Constant) and isinstance(k.value, str) and needs_escape(k.value, '{}'):
+                        return 'C08.fstring.format_spec_text_needs_escape'
+        for n in nodes:
+            if isinstance(n, ast.FormattedValue):
+                # literal text of an f-string nested in a replacement field (possible from 3.12 on) that needs a backslash escape or holds quotes
+                for k in ast.walk(n.value):
+                    if isinstance(k, ast.JoinedStr):
+                        for t in k.values:
+                            if isinstance(t, ast.Constant) and isinstance(t.value, str) and needs_escape(t.value, '\'"'):
+                                return 'C08.fstring.nested_fstring_text_needs_escape'
         for n in nodes:
             if isinstance(n, ast.JoinedStr):
                 for m in ast.walk(n):
